@@ -318,6 +318,14 @@ where
         let log_q_backward = self.proposal.logp(&proposed, &self.current_state);
         let log_accept_ratio = (proposed_lp + log_q_backward) - (current_lp + log_q_forward);
         let u: F = self.rng.random();
+        #[cfg(feature = "verif-hooks")]
+        crate::verif_hooks::push(|| {
+            format!(
+                "mh u={} ratio={}",
+                crate::verif_hooks::f64_hex(u.to_f64().unwrap_or(f64::NAN)),
+                crate::verif_hooks::f64_hex(log_accept_ratio.to_f64().unwrap_or(f64::NAN))
+            )
+        });
         if log_accept_ratio > u.ln() {
             self.current_state = proposed;
         }
